@@ -6,6 +6,8 @@ import os
 import numpy as np
 
 from .. import engine, optics as op, tlc
+from .. import histories
+from ..histories import t_callhist        # worker task of the history harness (mc/histories.py)
 from ..engine import LENTIL_SRC
 
 PID = 'C08'
@@ -265,6 +267,7 @@ def run(tier, seed, acc, procs=None):
     acc.transitions += M['edges']
     acc.cls('tlc-distinct-states', M['tlc_states'][1])
     acc.cls('tlc-edges', M['edges'])
+    tasks += histories.tasks_for(PID, seed)        # pairwise call histories over the operations this property is anchored in
     engine.run_parallel(MOD, tasks, acc, procs)
     npaths = sum(3 * len(M['acts']) ** d for d in range(1, depth + 1))
     return {
@@ -282,6 +285,9 @@ def run(tier, seed, acc, procs=None):
 
 
 def replay(case, acc):
+    if case.get('kind') == 'histop':
+        import os as _os
+        return histories.chk_case(case, acc, int(_os.environ.get('VERIF_SEED', '0') or 0))
     M = model()
     n0 = [n for n in M['init'] if M['nodes'][n]['wf'] == case['init']][0]
     node = n0
